@@ -433,6 +433,107 @@ def f_spec_only_rejects(a):
         return canon_exc(e)
 
 
+# ---- C13: random generation, instrumented from outside (no hooks in schwifty)
+def _random_run(kind, cc, use_registry, pins, seed):
+    """-> (canonical outcome, log) where log = (country idx, bank idx, xeger draws) as the implementation saw them"""
+    import random as _random
+    import rstr as _rstr
+
+    log = {"choices": [], "draws": [], "in_xeger": 0}
+
+    class LoggingRandom(_random.Random):
+        def choice(self, seq):
+            i = self._randbelow(len(seq))
+            if not log["in_xeger"]:
+                log["choices"].append((i, len(seq)))
+            return seq[i]
+
+    orig = _rstr.Rstr.xeger
+
+    def xeger(self, pattern):
+        log["in_xeger"] += 1
+        try:
+            r = orig(self, pattern)
+        finally:
+            log["in_xeger"] -= 1
+        log["draws"].append(r)
+        return r
+
+    _rstr.Rstr.xeger = xeger
+    try:
+        rnd = LoggingRandom(seed)
+        f = BBAN.random if kind == "bban" else IBAN.random
+        try:
+            o = f(cc, random=rnd, use_registry=use_registry, **pins)
+            res = ("OK " + (enc(o.country_code) + " " + enc(str(o)) if kind == "bban" else enc(str(o))), o)
+        except Exception as e:  # noqa: BLE001
+            res = (canon_exc(e), None)
+    finally:
+        _rstr.Rstr.xeger = orig
+    return res, log
+
+
+def _pins(s):
+    out = {}
+    if s:
+        for kv in s.split(";"):
+            k, v = kv.split("=")
+            out[dec(k)] = dec(v)
+    return out
+
+
+def f_random(a):
+    import json as _json
+    kind, cc, use_registry, pins, seed = a[0], dec(a[1]), b(a[2]), _pins(a[3]), int(a[4])
+    (res, _o), log = _random_run(kind, cc, use_registry, pins, seed)
+    ch = list(log["choices"])
+    ci = ch.pop(0)[0] if (not cc and ch) else 0
+    bi = ch.pop(0)[0] if ch else 0
+    return res + " ## " + _json.dumps({"ci": ci, "bi": bi, "draws": [enc(d) for d in log["draws"]]})
+
+
+def f_spec_random(a):
+    """C13 on the implementation: valid / conforming result of the requested country carrying every pinned component,
+    or the documented overflow error; identical on a second equally seeded call; listed bank when applicable."""
+    kind, cc, use_registry, pins, seed = a[0], dec(a[1]), b(a[2]), _pins(a[3]), int(a[4])
+    (res, o), log = _random_run(kind, cc, use_registry, pins, seed)
+    (res2, _), _ = _random_run(kind, cc, use_registry, pins, seed)
+    if res != res2:
+        return "NOT-REPRODUCIBLE"
+    if o is None:
+        return "OK" if res == "ERR GenerateRandomOverflowError" or (res == "ERR InvalidCountryCode" and cc not in FACTS["iban_rows"]) \
+            else "RAISED " + res
+    ccode = o.country_code
+    if cc and ccode != cc:
+        return "WRONG-COUNTRY " + ccode
+    row = FACTS["iban_rows"].get(ccode)
+    bban = str(o) if kind == "bban" else str(o)[4:]
+    full = ccode + "00" + bban if kind == "bban" else str(o)
+    if kind == "iban":
+        if not _iso_valid(str(o)):
+            return "INVALID " + str(o)
+    else:
+        kinds = "".join(k * int(n) for n, k in re.findall(r"(\d+)!([nac])", row["bban_spec"]))
+        cls = {"n": "0123456789", "a": "ABCDEFGHIJKLMNOPQRSTUVWXYZ"}
+        cls["c"] = cls["n"] + cls["a"]
+        if len(kinds) != len(bban) or any(ch not in cls[k] for k, ch in zip(kinds, bban)):
+            return "NOT-CONFORMING " + bban
+    pos = row.get("positions") or {}
+    if pins and not pos:
+        return "PIN-IGNORED-NO-POSITIONS"
+    for k, v in pins.items():
+        s, e_ = pos.get(k, [0, 0])
+        if bban[s:e_] != v:
+            return f"PIN-NOT-HONOURED {k}: {bban[s:e_]!r} != {v!r}"
+    if use_registry and "bank_code" not in pins and "branch_code" not in pins:
+        entries = [en for en in registry.get("bank") if en["country_code"] == ccode]
+        if entries and all(en["bank_code"] for en in entries):
+            holder = o if kind == "bban" else o.bban
+            if holder.bank is None:
+                return "NOT-A-LISTED-BANK " + str(o)
+    return "OK"
+
+
 # ---- C08 / C09: property oracles written against the translated table (facts), not against schwifty
 def _clean(v):
     return re.sub(r"\s+", "", v).upper()
